@@ -4,6 +4,7 @@
 package chain
 
 import (
+	"github.com/ucan-wg/go-ucan/pkg/container"
 	"github.com/ipld/go-ipld-prime/node/basicnode"
 	cidlink "github.com/ipld/go-ipld-prime/linking/cid"
 	"io"
@@ -159,6 +160,12 @@ type Case struct {
 	// caller attenuates - `child := append(parent, extra...)` on a slice with room to spare - so that all the
 	// policies are views of ONE backing array (lengths differ, capacity reaches to the end of the array)
 	PrefixPols bool `json:"prefix_pols,omitempty"`
+	// ReaderLoader: the delegations reach the check through a token container (written as CBOR, read back): the
+	// container.Reader itself is the loader, as applications that receive invocation and proofs in one container use it
+	ReaderLoader bool `json:"reader_loader,omitempty"`
+	// ForeignProof > 0: the proof list names, at position ForeignProof-1, the CID of a token that is NOT a delegation
+	// (another invocation, which the container also carries): a proof that cannot be loaded as a delegation
+	ForeignProof int `json:"foreign_proof,omitempty"`
 }
 
 // MakePrefixPols rewrites the policies of c so that each is the prefix (of its own length) of the longest one.
@@ -481,6 +488,7 @@ func Build(c Case) (*Built, error) {
 			copy(master, m)
 		}
 	}
+	var sealedOf [][]byte
 	for i, l := range c.Links {
 		var pre policy.Policy
 		if master != nil && len(l.Pol) > 0 && len(l.Pol) <= len(master) {
@@ -490,6 +498,7 @@ func Build(c Case) (*Built, error) {
 		if err != nil {
 			return nil, fmt.Errorf("link %d: %w", i, err)
 		}
+		sealedOf = append(sealedOf, sealedBytes)
 		if l.Missing && l.MissStyle >= 4 {
 			// the delegation is referenced by a CID of another form than the one the loader files it under (and
 			// the loader does not have it under any): the bytes inlined in an identity CID, another hash function,
@@ -526,7 +535,51 @@ func Build(c Case) (*Built, error) {
 		}
 	}
 	b.Loader = ld
-	inv, err := BuildInv(c.Inv, b.Cids)
+	prf := b.Cids
+	var spareSealed []byte
+	var spareCid cid.Cid
+	if c.ForeignProof > 0 {
+		spare, serr := BuildInv(Inv{Iss: c.Inv.Iss, Sub: c.Inv.Sub, Aud: -1, Cmd: "/spare", NonceLen: 14}, nil)
+		if serr != nil {
+			return nil, serr
+		}
+		if spareSealed, spareCid, serr = spare.ToSealed(Prin(c.Inv.Iss).Priv); serr != nil {
+			return nil, serr
+		}
+		at := (c.ForeignProof - 1) % (len(prf) + 1)
+		prf = append(append(append([]cid.Cid{}, prf[:at]...), spareCid), prf[at:]...)
+	}
+	if c.ReaderLoader {
+		usable := true
+		for _, l := range c.Links {
+			if l.LoaderErr || (l.Missing && l.MissStyle != 0 && l.MissStyle < 4) {
+				usable = false // failure styles a container cannot express: keep the scripted loader
+			}
+		}
+		if usable {
+			w := container.NewWriter()
+			gone := map[cid.Cid]bool{}
+			for i, l := range c.Links {
+				if l.Missing {
+					gone[b.Cids[i]] = true // also when an identical twin of it is present
+				}
+			}
+			for i, l := range c.Links {
+				if !l.Missing && i < len(sealedOf) && !gone[b.Cids[i]] {
+					w.AddSealed(b.Cids[i], sealedOf[i])
+				}
+			}
+			if spareSealed != nil {
+				w.AddSealed(spareCid, spareSealed)
+			}
+			if cb, werr := w.ToCbor(); werr == nil {
+				if rd, rerr := container.FromCbor(cb); rerr == nil {
+					b.Loader = rd
+				}
+			}
+		}
+	}
+	inv, err := BuildInv(c.Inv, prf)
 	if err != nil {
 		return nil, err
 	}
@@ -801,6 +854,9 @@ func Eval(c Case) Rules {
 		if l.Missing || l.LoaderErr {
 			r.R[2] = false
 		}
+	}
+	if c.ForeignProof > 0 {
+		r.R[2] = false // a proof reference that is not a delegation cannot be loaded as one
 	}
 	r.R[3] = n > 0 && c.Links[0].Aud == c.Inv.Iss
 	r.R[4] = true
